@@ -16,7 +16,7 @@ P = {
             "Every byte length 0..(T+2)*chunk+17 for every T=1..16, every cipher mode and hash mode, with chunk size overridden to 1-4 blocks, is encrypted and decrypted by the real code and compared with the plaintext. Exhaustive over the stated grid; data values from small alphabets.",
             "trusts: size overrides preserve the code's structure (the constants are only used as sizes); canonical schedule; ASan as memory oracle"),
     "C02": (True, EX, "4/C02", "exhaustive grid compared byte-for-byte with an independent executable specification (libcrypto)",
-            "Same grid as C01; the produced file must equal the reference implementation of the documented format (EVP AES modes, SHA-1 IV chain, PKCS#7, round-robin striping, RFC 2104 tag), be deterministic, contain no plaintext block and leave the input intact.",
+            "Same grid as C01 (plus seeds chosen for the structure of their SHA-1 chain and the size argument given exact / 0 / too large); the produced file must equal the reference implementation of the documented format (EVP AES modes, SHA-1 IV chain, PKCS#7, round-robin striping, RFC 2104 tag), be deterministic, contain no plaintext block and leave the input intact.",
             "trusts OpenSSL libcrypto as reference (self-tested against FIPS/NIST/RFC vectors in every run)"),
     "C03": (True, MC, "4/C03", "model checking of the implementation under a controlled scheduler: stateless preemption-/delay-bounded DFS, sleep-set search, and explicit-state search with state matching (no bound) whose abstraction is validated by a successor-determinism check",
             "All interleavings of the real pipeline code (worker threads + I/O thread) up to the stated preemption bound, for T=1..4 and every chunk-count class, are executed; on each the output must equal the sequential reference and every stream must have processed exactly its own blocks once, in order.",
@@ -40,16 +40,16 @@ P = {
             "gethmac over [pos,EOF) for every length 0..3R+65, 10 (thorough 81) start positions, 5 keys, 3 hash modes; cmphmac accepts the RFC 2104 tag and rejects each single-bit change; tag placement and zero fill checked on files written by the real encrypt for T in {1,2,3,4,5,16}.",
             "OpenSSL HMAC() as oracle; keys from a 5-member alphabet"),
     "C09": (True, EX, "4/C09", "exhaustive enumeration of all table entries and of all one-key-byte x one-block-byte deviations from base pairs, against libcrypto",
-            "All four lookup tables are checked entry by entry against their mathematical definition; every (key, block) differing from a base pair in one key byte and one block byte (16.8M pairs per base) and all 128x128 single-bit pairs are encrypted/decrypted by the real code and compared with libcrypto.",
+            "All four lookup tables are checked entry by entry against their mathematical definition; every (key, block) differing from a base pair in one key byte and one block byte (16.8M pairs per base) and all 128x128 single-bit pairs are encrypted/decrypted by the real code and compared with libcrypto; for every round 1..9, column and 881 column patterns the (key, block) whose round state has that column entering MixColumns / InvMixColumns is constructed and checked (data-dependent paths inside the round functions).",
             "bounded-alphabet claim: 2^256 inputs cannot be enumerated; multi-byte data interactions are covered only through the 4 bases"),
     "C10": (True, EX, "4/C10", "exhaustive enumeration of all block sequences up to length 4 over a 3-block alphabet x every counter-carry depth, plus 65,539-block streams, against EVP",
-            "For each of the five modes: 3 keys x 20 IVs (last k bytes 0xFF, k=0..16, so the CTR carry passes through every depth) x all 121 block sequences of length 0..4, and long streams crossing one and two counter byte boundaries; encryptor, decryptor-as-inverse and decryptor compared with libcrypto EVP.",
+            "For each of the five modes: 3 keys x 20 IVs (last k bytes 0xFF, k=0..16, so the CTR carry passes through every depth) x all 121 block sequences of length 0..4, and long streams crossing one and two counter byte boundaries; encryptor, decryptor-as-inverse and decryptor compared with libcrypto EVP; one AesFactory object driven through all operation sequences up to length 4 over {loadiv(A), loadiv(B), create(enc/dec, m1), create(enc/dec, m2)} for all mode pairs.",
             "sequence alphabet of 3 blocks; keys/IVs from small alphabets"),
     "C11": (True, FE, "4/C11", "exhaustive enumeration of malformed-file shapes (every truncation, every short length, every mode-byte pair, ...) with the real verify+decrypt in forked ASan children",
             "Every truncation of 9 valid files, every length 0..80 of three fillers, every magic prefix, all mode-byte pairs (quick: 11x11 borders, thorough: all 65,536) on valid files of all 15 mode combinations, wrong-tag files with 7 body lengths; each must return normally with a failure, write nothing on failure and at most the body length on success. A pseudo-random garbage sample is added and labelled as sampling.",
             "ASan as memory oracle; validly tagged files not made by encryption are outside the domain"),
     "C12": (True, FE, "4/C12", "exhaustive enumeration over the union of the C05/C06/C11 corpora, differential oracle verify vs decrypt",
-            "For every (file,key) of the modification, wrong-key and malformed corpora the real verify and decrypt are run on fresh copies: results must agree, verify must leave its output stream empty and the input bytes must be unchanged.",
+            "For every (file,key) of the modification, wrong-key and malformed corpora the real verify and decrypt are run on fresh copies: results must agree, verify must leave its output stream empty and the input bytes must be unchanged. The same three clauses are checked on the real binary (-v, -d -o, -d) for file classes named with and without .wenc.",
             "corpus bounded as in C05/C06/C11 (10 base files for the modification part)"),
     "C16": (True, EX, "4/C16", "exhaustive enumeration of all base64 groups (2^24 encodes, 64^4 decodes) and of all '=' placements / byte substitutions for the key validator, two-sided oracle with a don't-care class",
             "Encoder on all 2^24 three-byte groups and all tails; decoder on all four-symbol groups and padded tails; validator on all 2^24 '=' placements, every byte at every position, class pairs, all lengths 0..40; accepted strings are decoded into a 16-byte heap buffer under ASan; printed keys round-trip.",
@@ -60,12 +60,12 @@ P = {
     "C18": (True, EX, "4/C18", "exhaustive configuration grid (T=2..16 x modes x seeds x chunk patterns), behavioural oracle on ciphertext relations, violations keyed by cause",
             "For every T=2..16, non-ECB mode, five seeds and two chunk patterns the written file is inspected: IV fields distinct and seed dependent, and no two streams may start from the same value (equal chunks -> different ciphertext; CTR/OFB keystream not reused). The pinned format starts every stream from IV[0]: reported as the recorded known finding, any other cause is a violation.",
             "known finding stream-start-iv:shared-with-stream-0 (format-level, not repairable without changing what C02 fixes)"),
-    "C15": (True, MC, "4/C15", "explicit-state enumeration of all operation histories up to depth 3/4 over a 16-operation alphabet, each history in a fresh process, differential oracle against the same operation alone; canonical process state recorded after every step",
-            "All sequences of up to 3 (thorough 4) operations drawn from 9 library-level and 7 command-line operations (successful and failing ones, T=1/2/4/16) run inside one process; each operation must observe exactly what it observes alone in a fresh process. The canonical process-wide state (live-buffer counter, singleton, thread count) after every step is recorded; one distinct state means every operation restores the initial state.",
+    "C15": (True, MC, "4/C15", "explicit-state enumeration of all operation histories up to depth 3/4 over a 25-operation alphabet, each history in a fresh process, differential oracle against the same operation alone; canonical process state recorded after every step",
+            "All sequences of up to 3 (thorough 4) operations drawn from 16 library-level and 9 command-line operations (successful and failing ones, T=1/2/4/16, a second key, a file altered or repaired in place between operations, a file read with more workers than it was written with) run inside one process; each operation must observe exactly what it observes alone in a fresh process. The canonical process-wide state (live-buffer counter, singleton, thread count) after every step is recorded; one distinct state means every operation restores the initial state.",
             "depth bound; the hidden getopt cursor is not part of the canonical state, so for command-line histories the claim is the depth bound plus the differential oracle"),
-    "C17": (True, EX, "4/C17", "exhaustive enumeration of option vectors (single deviations, all pairs; thorough: full product of interacting dimensions) against the real ASan-built binary, effect confirmed by the reference",
+    "C17": (True, EX, "4/C17 and 11.1", "exhaustive enumeration of option vectors (single deviations, all pairs; thorough: full product of value classes) against the real ASan-built binary, effect confirmed by the reference; plus exhaustive enumeration of write-failure points (every byte limit below the complete output size, /dev/full) of the same binary",
             "The real executable is run on every vector of the grid; no crash/sanitizer report may occur, exit status 0 must coincide with the effect being there (written file equals the documented format and decrypts to the input / plaintext restored / tag valid per the reference), and documented-invalid command lines must exit non-zero with a diagnostic.",
-            "value classes per option (12x8x3x8x11x6x2x3); interactive mode excluded; production chunk size"),
+            "value classes per option (12x14x4x9x11x6x2x10); a non-zero exit must print a line no successful run prints (wording not prescribed; -n vectors are a don't-care); write failures modelled as RLIMIT_FSIZE/EFBIG and a device refusing writes; interactive mode excluded; production chunk size"),
 }
 PENDING = {}
 
